@@ -233,7 +233,9 @@ def _same_name(a, b):
 
 
 def uses_user_meta(spec):
-    if any(n.get("op") in ("fmap", "apply_rows") or n.get("e") in ("map", "apply") for n in D.walk(spec.get("ops", []))):
+    # (Series.map(f, meta=(name, dtype)) is NOT exempt: it is elementwise, dask builds its meta on the index of the input
+    # frame, and the index facts of the result are checked like everywhere else)
+    if any(n.get("op") in ("fmap", "apply_rows") or n.get("e") in ("apply",) for n in D.walk(spec.get("ops", []))):
         return True
     fin = spec.get("final") or {}
     return "agg" in fin and fin["agg"]["kind"] == "transform"
@@ -452,6 +454,35 @@ def random_case(draw):
     return {"frame": fs, "clear_div": draw(st.integers(0, 5)) == 0, "ops": ops, "final": final}
 
 
+def grid_cases(tier):
+    """Index facts of the lazy meta: every index kind x name x partitioning under the operations that build their meta
+    from a user-supplied (name, dtype) / dtype argument or rebuild the index (map with tuple meta, assign of a mapped
+    column, astype, rename, row-wise arithmetic, filter)."""
+    import itertools
+
+    cols = [{"kind": "int", "name": "a"}, {"kind": "float", "name": "b", "nan": 0.2}, {"kind": "str", "name": "c", "nan": 0.0}]
+    mp = {"e": "map", "x": {"e": "col", "name": "a"}, "fn": "inc", "meta": "int64"}
+    programs = [
+        [{"op": "expr", "value": mp}],
+        [{"op": "assign", "name": "z", "value": mp}],
+        [{"op": "assign", "name": "a", "value": mp}, {"op": "project", "cols": ["a", "b"]}],
+        [{"op": "expr", "value": {"e": "bin", "l": {"e": "col", "name": "a"}, "op": "add", "r": {"e": "lit", "v": 1}}}],
+        [{"op": "filter", "pred": {"e": "bin", "l": {"e": "col", "name": "a"}, "op": "gt", "r": {"e": "lit", "v": 0}}}],
+        [{"op": "getcol", "col": "c"}],
+    ]
+    kinds = ["range", "sorted_unique", "sorted_dups", "unsorted", "datetime", "str"]
+    parts = [{"how": "npartitions", "n": 1, "sort": True}, {"how": "npartitions", "n": 3, "sort": True}, {"how": "cuts", "cuts": [0, 4, 4], "divisions": False}]
+    for kind, name, part, ops in itertools.product(kinds, [None, "idx"], parts, programs):
+        if part["how"] == "cuts" and kind in ("unsorted",):
+            continue
+        frame = {"columns": cols, "index": {"kind": kind, "name": name}, "nrows": 9, "seed": 5, "partition": part}
+        yield {"clear_div": False, "final": None, "frame": frame, "ops": ops}
+
+
+def grid_nontrivial(spec):
+    return spec["frame"]["index"]["kind"] != "range" or spec["frame"]["index"]["name"] is not None
+
+
 SUBCHECKS = [
     Sub(
         "random",
@@ -461,5 +492,15 @@ SUBCHECKS = [
         nontrivial=nontrivial,
         classes=classes,
         doc="random programs (row-wise steps, optional reduction or groupby) on frames with empty partitions: lazy _meta vs computed result and every computed partition",
+    ),
+    Sub(
+        "grid",
+        check,
+        kind="enum",
+        cases=grid_cases,
+        nontrivial=grid_nontrivial,
+        classes=classes,
+        exhaustive=True,
+        doc="index kind x index name x partitioning x six small programs (map with tuple meta, assign, arithmetic, filter, column access): index name/dtype of the lazy meta vs computed",
     ),
 ]
